@@ -644,3 +644,36 @@ package emitter
 //@         ? (len(sb.pieces) == len(prev(sb.pieces)) + 1 && DefinesScript(sb.pieces[len(prev(sb.pieces))], tableMapScript.Entries[prev($i)].Script) && PrefixKept(sb.pieces, prev(sb.pieces)))
 //@         : sb.pieces == prev(sb.pieces)
 //@ end
+
+// ---- the top-level driver (C06, C08, C09, C17) ----
+// what the emitter expects of the AST the parser hands over (established by package parser; assumption A-wf at this boundary)
+//@ pred TopStmtWF(s ast.Statement) = s != nil
+//@   && (typeis(s, ast.MapScriptsStatement) ==> MapScriptsWF(as(s, ast.MapScriptsStatement)))
+//@   && (typeis(s, ast.ScriptStatement) ==> (as(s, ast.ScriptStatement) != nil && ScriptWF(as(s, ast.ScriptStatement))))
+//@   && (typeis(s, ast.RawStatement) ==> as(s, ast.RawStatement) != nil)
+//@   && (typeis(s, ast.MovementStatement) ==> (as(s, ast.MovementStatement) != nil && as(s, ast.MovementStatement).Name != nil))
+//@   && (typeis(s, ast.MartStatement) ==> (as(s, ast.MartStatement) != nil && as(s, ast.MartStatement).Name != nil && len(as(s, ast.MartStatement).TokenItems) == len(as(s, ast.MartStatement).Items)))
+//@ pred ProgWF(pr *ast.Program) = pr != nil && (forall k int :: {pr.TopLevelStatements[k]} (0 <= k && k < len(pr.TopLevelStatements)) ==> TopStmtWF(pr.TopLevelStatements[k]))
+
+// Every top-level statement other than a text statement contributes exactly one block, in source order, separated by
+// blank lines; then every text of the program (hoisted first, then explicit) is defined by exactly one block that
+// starts with its own label (C06: each label is defined exactly once because ParseProgram returns distinct names).
+//@ func (e *Emitter) Emit
+//@   requires ProgWF(e.program)
+//@   ensures [C20:emit-err] result1 != nil ==> result0 == ""
+//@   loop 1
+//@     invariant [C17:text-labels] textLabels != nil
+//@   loop 2
+//@     invariant [C08,C10:top-inv] i >= 0 && textLabels != nil
+//@     transition [C08,C10:top-once] typeis(e.program.TopLevelStatements[prev($i)], ast.TextStatement)
+//@        ? (sb.pieces == prev(sb.pieces) && i == prev(i))
+//@        : (i == prev(i) + 1 && len(sb.pieces) == len(prev(sb.pieces)) + (prev(i) > 0 ? 2 : 1) && PrefixKept(sb.pieces, prev(sb.pieces))
+//@           && (prev(i) > 0 ==> sb.pieces[len(prev(sb.pieces))] == "\n")
+//@           && (typeis(e.program.TopLevelStatements[prev($i)], ast.ScriptStatement) ==> DefinesScript(sb.pieces[len(sb.pieces) - 1], as(e.program.TopLevelStatements[prev($i)], ast.ScriptStatement)))
+//@           && (typeis(e.program.TopLevelStatements[prev($i)], ast.MovementStatement) ==> MovPieces(piecesOf(sb.pieces[len(sb.pieces) - 1]), as(e.program.TopLevelStatements[prev($i)], ast.MovementStatement)))
+//@           && (typeis(e.program.TopLevelStatements[prev($i)], ast.MartStatement) ==> MartPieces(piecesOf(sb.pieces[len(sb.pieces) - 1]), as(e.program.TopLevelStatements[prev($i)], ast.MartStatement))))
+//@   loop 3
+//@     transition [C06,C09:text-once] len(sb.pieces) == len(prev(sb.pieces)) + ((i + prev($i)) > 0 ? 2 : 1) && PrefixKept(sb.pieces, prev(sb.pieces))
+//@           && ((i + prev($i)) > 0 ==> sb.pieces[len(prev(sb.pieces))] == "\n")
+//@           && TextPieces(piecesOf(sb.pieces[len(sb.pieces) - 1]), e.program.Texts[prev($i)])
+//@ end
